@@ -16,6 +16,7 @@ RULE = ('Exhaustive grid: scope kind (4) x pattern kind (5) x disjunction width 
         'activator nor the split event is a disjunction; otherwise one property per (activator alternative x split '
         'alternative), activator-major in source order, identical to the input everywhere else. Non-trivial = some '
         'width > 1; distinct = (scope, pattern, widths, decoration shape).')
+RULE_ADDED = ' Since the seeding rounds: properties built through the constructors (left/balanced/random/derived disjunction trees, lower time bounds), twins, one disjunction in two positions, constant predicates.'
 ASSUMPTIONS = ['split positions per DESIGN.md Appendix A.5', 'properties in which a later event references an alias '
                'bound by only some alternatives of a split disjunction have no valid decomposition (known finding of '
                'C14) and are kept in a separate stratum']
